@@ -25,7 +25,7 @@
    the real code under the property observers: the unchanged code passes, an implementation that has the bug fails.
      "no_inval" "partial_ok" "no_old_recv" "le_old" "no_old_send" "no_clear_req" "eph_in_dosend" "eph_ffwd"
      "no_rerequest" "bal_all_pubs" "no_required" "prefetch_first_hop" "no_unregister" "id_not_carried" "hello_counts"
-     "inval_complete_only" "C01b_state" "bal_unlock_on_enter" "bal_eph_reenables" "stale_t" "ll_prev_stale" "lazy_none_keeps_state"
+     "inval_complete_only" "C01b_state" "bal_unlock_on_enter" "bal_eph_reenables" "stale_t" "ll_prev_stale" "lazy_none_keeps_state" "track_wait" "no_expire"
    and the switch "stale_kept": recv() keeps the frames buffered under an older id when it is entered with a newer expected id
    (the code before its repair, see known_findings.json) *)
 EXTENDS Integers, Sequences, FiniteSets, TLC
@@ -42,6 +42,10 @@ CONSTANTS
   MaxSeq,      \* origins generate frames 0..MaxSeq
   ConnTicks,   \* ZMQ_CONN_TIMEOUT / ZMQ_POLL_TIMEOUT
   PubHWM,      \* ZMQ_PUB_HWM (messages per subscriber pipe)
+  SubHWM,      \* 0: no flow control - what is in flight towards a subscriber and what sits unread at it are bounded together by
+               \*    PubHWM (the single bound the other configurations use);
+               \* n > 0: the subscriber's own pipe holds n messages; when it is full the link delivers nothing more (back pressure of
+               \*    the transport) and the publisher's pipe fills up to PubHWM, where further messages for that subscriber are dropped
   PushHWM,     \* ZMQ_PUSH_HWM
   Handshake,   \* ZMQ_CONN_HANDSHAKE
   Defects,     \* subset of {"C01a", "C01b"}
@@ -191,7 +195,7 @@ RECURSIVE PubSeq(_, _, _)
 PubSeq(c, msgs, q) ==      \* q = <<in flight, arrived count>>; one message at a time because the HWM is per message
   IF msgs = <<>> THEN q
   ELSE LET m == Head(msgs)
-           q1 == IF Matches(c, m) /\ Len(q[1]) + q[2] < PubHWM THEN <<Append(q[1], m), q[2]>> ELSE q
+           q1 == IF Matches(c, m) /\ Len(q[1]) + (IF SubHWM = 0 THEN q[2] ELSE 0) < PubHWM THEN <<Append(q[1], m), q[2]>> ELSE q
        IN PubSeq(c, Tail(msgs), q1)
 
 PubAll(g, outs, msgs, pq) ==
@@ -211,14 +215,18 @@ Establish(c) == /\ ~linkUp[c] /\ SubOpen(c[1]) /\ Alive(PubOf(c))
                 /\ UNCHANGED <<pc, minSend, clients, sl, prevId, rmin, rbal, rsrc, mq, oseq, pubq, subq, reqq, pullq,
                                inc, stalled, nfaults, gvars>>
 
-DeliverPub(c) == /\ pubq[c] # <<>> /\ SubOpen(c[1])
+SubRoom(c) == SubHWM = 0 \/ Len(subq[c]) < SubHWM
+DeliverPub(c) == /\ pubq[c] # <<>> /\ SubOpen(c[1]) /\ SubRoom(c)
                  /\ subq' = [subq EXCEPT ![c] = Append(@, Head(pubq[c]))]
                  /\ pubq' = [pubq EXCEPT ![c] = Tail(@)]
                  /\ lbl' = <<"dpub", c[1], c[2]>>
                  /\ UNCHANGED <<pc, minSend, clients, sl, prevId, rmin, rbal, rsrc, mq, oseq, reqq, pullq, linkUp,
                                 inc, stalled, nfaults, gvars>>
 
-DeliverReq(c) == /\ reqq[c] # <<>> /\ Alive(PubOf(c))
+\* (with flow control the PULL side of a request pipe holds PushHWM requests as well: a publisher that does not read them makes
+\*  the consumer's pipe fill up, and its send_push() then fails with zmq.Again)
+PullRoom(c) == SubHWM = 0 \/ Len(pullq[PubOf(c)][OutOf(c)]) < PushHWM
+DeliverReq(c) == /\ reqq[c] # <<>> /\ Alive(PubOf(c)) /\ PullRoom(c)
                  /\ pullq' = [pullq EXCEPT ![PubOf(c)][OutOf(c)] = Append(@, Head(reqq[c]))]
                  /\ reqq' = [reqq EXCEPT ![c] = Tail(@)]
                  /\ lbl' = <<"dreq", c[1], c[2]>>
@@ -607,7 +615,7 @@ PutClient(cl, r) == IF HasClient(cl, r.c, r.inc)
                     THEN [n \in 1..Len(cl) |-> IF cl[n].c = r.c /\ cl[n].inc = r.inc THEN r ELSE cl[n]]
                     ELSE Append(cl, r)
 DelClient(cl, c, i) == SelectSeq(cl, LAMBDA r : ~(r.c = c /\ r.inc = i))
-ExpireW(cl, w) == IF ConnTicks = 0 THEN cl ELSE SelectSeq(cl, LAMBDA r : r.age - w <= ConnTicks)
+ExpireW(cl, w) == IF ConnTicks = 0 \/ D("no_expire") THEN cl ELSE SelectSeq(cl, LAMBDA r : r.age - w <= ConnTicks)
 Expire(cl) == ExpireW(cl, 0)
 EarlyEvict(cl, w) == ConnTicks > 0 /\ \E n \in 1..Len(cl) : cl[n].age - w > ConnTicks /\ cl[n].sil <= ConnTicks
 
@@ -687,7 +695,7 @@ SendMaybe(f, lc, cl, waitpc) ==
              /\ ahead' = [c \in Conns |-> IF PubOf(c) = f /\ OutOf(c) \in out /\ c[1] \in stalled /\ Eph(c) = 0
                                              /\ \E n \in incl : cl[n].c = c
                                           THEN ahead[c] + 1 ELSE ahead[c]]
-             /\ pc' = [pc EXCEPT ![f] = AfterSend(f)]
+             /\ pc' = [pc EXCEPT ![f] = IF D("track_wait") THEN "s_track" ELSE AfterSend(f)]
 
 \* lowest-index bound output with a pending request (socks[0], zeromq.py:331)
 ReadyOut(f) == {o \in 1..NOut[f] : pullq[f][o] # <<>>}
@@ -759,6 +767,17 @@ SPollMsg(f, phase) ==
                                           /\ UNCHANGED <<minSend, mq, pubq, oseq, plog, ahead>>
   /\ lbl' = <<"step", f, 0>>
   /\ UNCHANGED <<prevId, rmin, rbal, rsrc, subq, reqq, linkUp, inc, stalled, nfaults, dlast, ndeliv, lastD>>
+
+\* design mutation "track_wait" ("zero-copy": the frames' buffers are handed to libzmq by reference and send() returns only when
+\* libzmq is done with them - MessageTracker.wait()): the sender sits here until the data messages of the publish have left its pipes
+Released(f) == \A c \in Conns : PubOf(c) = f =>
+                 \A n \in 1..Len(pubq[c]) : ~(pubq[c][n].k = "data" /\ pubq[c][n].mid = minSend[f] - 1 /\ pubq[c][n].inc = inc[f])
+STrack(f) ==
+  /\ pc[f] = "s_track" /\ Released(f)
+  /\ pc' = [pc EXCEPT ![f] = AfterSend(f)]
+  /\ lbl' = <<"step", f, 0>>
+  /\ UNCHANGED <<minSend, clients, sl, prevId, rmin, rbal, rsrc, mq, oseq, pubq, subq, reqq, pullq, linkUp, inc, stalled,
+                 nfaults, gvars>>
 
 \* poll(0) finds nothing
 SPollEmpty(f) ==
@@ -902,7 +921,7 @@ StepNT(f) ==
      \/ RFinal(f, "r_fin0", "r_poll0") \/ RFinal(f, "r_finw", "r_wait")
      \/ SPollMsg(f, "s_drain") \/ SPollMsg(f, "s_drain_h") \/ SPollMsg(f, "s_wait") \/ SPollMsg(f, "s_wait_h")
      \/ SPollOob(f, "s_drain") \/ SPollOob(f, "s_drain_h") \/ SPollOob(f, "s_wait") \/ SPollOob(f, "s_wait_h")
-     \/ SPollEmpty(f)
+     \/ SPollEmpty(f) \/ STrack(f)
 StepTO(f) == Runs(f) /\ (RTimeout(f) \/ STimeout(f) \/ SBlockTick(f) \/ WorkDone(f) \/ XClose1Done(f) \/ XClose2Done(f))
 
 Net    == \E c \in Conns : Establish(c) \/ DeliverPub(c) \/ DeliverReq(c)
@@ -919,12 +938,13 @@ Spec == Init /\ [][Next]_vars
 (* Prompt scheduling: message latency and compute time are far below the poll interval, so a poll timeout fires only
    when nothing else can happen ("delays below the request interval, runnable filters run promptly"). *)
 NetEnabled == \E c \in Conns : \/ ~linkUp[c] /\ SubOpen(c[1]) /\ Alive(PubOf(c))
-                               \/ pubq[c] # <<>> /\ SubOpen(c[1])
-                               \/ reqq[c] # <<>> /\ Alive(PubOf(c))
+                               \/ pubq[c] # <<>> /\ SubOpen(c[1]) /\ SubRoom(c)
+                               \/ reqq[c] # <<>> /\ Alive(PubOf(c)) /\ PullRoom(c)
 FilterReady(f) == /\ Runs(f)
                   /\ \/ pc[f] \in {"r_poll0", "r_fin0", "r_finw", "s_drain", "s_drain_h", "s_wait_h"}
                      \/ pc[f] = "r_wait" /\ Ready(f) # {}
                      \/ pc[f] = "s_wait" /\ ReadyOut(f) # {}
+                     \/ pc[f] = "s_track" /\ Released(f)
 GBusy == NetEnabled \/ \E f \in Filters : FilterReady(f)
 NextPrompt ==
   IF GInt THEN \E f \in Filters : IntStep(f)
@@ -948,11 +968,19 @@ SpecZL == Init /\ [][NextZL]_vars
 PFilter(f) == IF GInt THEN IntStep(f) ELSE IF GBusy THEN StepNT(f) ELSE StepTO(f)
 PNet       == ~GInt /\ GBusy /\ Net
 NextFair   == (\E f \in Filters : PFilter(f)) \/ PNet
-FairPrompt == Init /\ [][NextFair]_vars /\ (\A f \in Filters : SF_vars(PFilter(f))) /\ WF_vars(PNet)
+\* Time passes for everybody: a filter whose poll can time out infinitely often while the system is idle does time out (without
+\* this a neighbour's re-requests alone satisfy SF(PFilter(f)) - f keeps answering them - while f's own clock, which ages and
+\* expires the clients of dead incarnations, stands still for ever).
+TFair(f) == SF_vars(~GInt /\ ~GBusy /\ StepTO(f))
+FairPrompt == Init /\ [][NextFair]_vars /\ (\A f \in Filters : SF_vars(PFilter(f)) /\ TFair(f)) /\ WF_vars(PNet)
+
+(* A consumer may stop reading for good (Stall without Resume): everybody else still gets fair turns. *)
+FairStalled == Init /\ [][NextFair \/ (~GInt /\ \E f \in Filters : Stall(f))]_vars
+                 /\ (\A f \in Filters : SF_vars(PFilter(f)) /\ TFair(f)) /\ WF_vars(PNet)
 
 (* The same with faults: a killed filter is eventually restarted, a stalled one eventually resumes. *)
 FairFault == Init /\ [][NextFair \/ (~GInt /\ Fault)]_vars
-               /\ (\A f \in Filters : SF_vars(PFilter(f)) /\ WF_vars(Restart(f)) /\ WF_vars(Resume(f))) /\ WF_vars(PNet)
+               /\ (\A f \in Filters : SF_vars(PFilter(f)) /\ TFair(f) /\ WF_vars(Restart(f)) /\ WF_vars(Resume(f))) /\ WF_vars(PNet)
 
 -----------------------------------------------------------------------------
 (* Properties *)
@@ -965,6 +993,9 @@ C07 == bad \cap {"C07_Rejoin"} = {} /\ C07_OneBranch
 C03 == "C03_Prefix" \notin bad
 C03_AllDelivered == \A f \in Filters : C03Applies(f) => ndeliv[f] = Cardinality(ExpIds(f))
 C03_Complete == <>[]C03_AllDelivered
+\* a listener that has stopped reading never holds its publisher: every origin still hands off all its frames (FairStalled, the
+\* victims are '?' / '??' consumers, SubHWM > 0)
+C05_ListenerCannotHold == <>[](\A g \in Filters : IsOrigin(g) => pc[g] = "gen" /\ oseq[g] > MaxSeq)
 C04_NoEarlyEvict == "C04_EarlyEvict" \notin bad     \* a client is dropped only after ZMQ_CONN_TIMEOUT of silence
 C04_Bounded == \A c \in Conns : ahead[c] <= 9
 C04_Tight(n) == \A c \in Conns : ahead[c] <= n        \* the bound the design actually achieves (per configuration)
